@@ -1,15 +1,6 @@
-"""C08 - packet identifiers: unique while in use, released exactly once, never leaked."""
-import endpoint
-
-PROP = "C08"
-QUICK = ["qos_c311", "qos_c50_rm", "qos_offline"]
-THOROUGH = ["qos_c311", "qos_c311_auto", "qos_c50", "qos_c50_rm", "qos_offline", "qos_server"]
-
-
-def nontrivial(n):
-    return n["call"]["op"] in ("acquire", "register", "release") or any(e["ev"] == "released" for e in n["out"])
+"""C08 - connection-level property decided on Endpoint.tla; see lib/endpoint_props.py and DESIGN.md section 4."""
+import endpoint_props
 
 
 def main(tier, replay=None):
-    return endpoint.run(PROP, tier, QUICK, THOROUGH, nontrivial, replay=replay,
-                        extra_rule="an identifier is acquired, registered or released")
+    return endpoint_props.main("C08", tier, replay)
